@@ -54,6 +54,10 @@ type tmplPlugin struct {
 	out, opt, strategy   string
 	includeImports, iwkt bool
 	types, excludeTypes  []string
+	// round 4: a protoc built-in plugin (name such as "cpp") instead of the plugin binary; protocPath is the
+	// protoc_path setting (nil = none: the compiler is looked up on PATH)
+	builtin    string
+	protocPath []string
 }
 
 func q(s string) string { b, _ := json.Marshal(s); return string(b) }
@@ -62,7 +66,13 @@ func renderTemplate(bin string, plugins []tmplPlugin) string {
 	var b strings.Builder
 	b.WriteString("version: v2\nplugins:\n")
 	for _, p := range plugins {
-		fmt.Fprintf(&b, "  - local: %s\n    out: %s\n    opt: %s\n    strategy: %s\n", q(bin), q(p.out), q(p.opt), p.strategy)
+		if p.builtin != "" {
+			fmt.Fprintf(&b, "  - protoc_builtin: %s\n", p.builtin)
+			b.WriteString(renderProtocPath(p.protocPath))
+			fmt.Fprintf(&b, "    out: %s\n    opt: %s\n    strategy: %s\n", q(p.out), q(p.opt), p.strategy)
+		} else {
+			fmt.Fprintf(&b, "  - local: %s\n    out: %s\n    opt: %s\n    strategy: %s\n", q(bin), q(p.out), q(p.opt), p.strategy)
+		}
 		if p.includeImports {
 			b.WriteString("    include_imports: true\n")
 		}
@@ -75,6 +85,38 @@ func renderTemplate(bin string, plugins []tmplPlugin) string {
 		if len(p.excludeTypes) > 0 {
 			fmt.Fprintf(&b, "    exclude_types: [%s]\n", strings.Join(p.excludeTypes, ", "))
 		}
+	}
+	return b.String()
+}
+
+func renderProtocPath(protocPath []string) string {
+	switch len(protocPath) {
+	case 0:
+		return ""
+	case 1:
+		return fmt.Sprintf("    protoc_path: %s\n", q(protocPath[0]))
+	}
+	var parts []string
+	for _, a := range protocPath {
+		parts = append(parts, q(a))
+	}
+	return fmt.Sprintf("    protoc_path: [%s]\n", strings.Join(parts, ", "))
+}
+
+// renderTemplateV1 renders a version v1 template (round 4): no per-plugin include_imports / include_wkt / types
+// there; a protoc built-in plugin is `plugin: <name>` (or the older `name: <name>`) with an optional protoc_path,
+// the plugin binary is `plugin: verif` + `path:`.
+func renderTemplateV1(bin string, plugins []tmplPlugin, nameKey string) string {
+	var b strings.Builder
+	b.WriteString("version: v1\nplugins:\n")
+	for _, p := range plugins {
+		if p.builtin != "" {
+			fmt.Fprintf(&b, "  - %s: %s\n", nameKey, p.builtin)
+			b.WriteString(renderProtocPath(p.protocPath))
+		} else {
+			fmt.Fprintf(&b, "  - %s: verif\n    path: %s\n", nameKey, q(bin))
+		}
+		fmt.Fprintf(&b, "    out: %s\n    opt: %s\n    strategy: %s\n", q(p.out), q(p.opt), p.strategy)
 	}
 	return b.String()
 }
@@ -326,6 +368,9 @@ func readRecorded(rec string) (map[string][]*pluginpb.CodeGeneratorRequest, erro
 		return nil, err
 	}
 	for _, e := range ents {
+		if strings.HasSuffix(e.Name(), ".protocargs") {
+			continue // round 4: the argument list of a compiler invocation, see readProtocArgs
+		}
 		id, _, _ := strings.Cut(e.Name(), ".")
 		b, err := os.ReadFile(filepath.Join(rec, e.Name()))
 		if err != nil {
@@ -342,6 +387,37 @@ func readRecorded(rec string) (map[string][]*pluginpb.CodeGeneratorRequest, erro
 		sort.SliceStable(reqs, func(i, j int) bool {
 			return strings.Join(reqs[i].GetFileToGenerate(), ",") < strings.Join(reqs[j].GetFileToGenerate(), ",")
 		})
+	}
+	return out, nil
+}
+
+// protocArgs is what the fake compiler recorded about one invocation (round 4).
+type protocArgs struct {
+	Args       []string `json:"args"`
+	PluginName string   `json:"plugin_name"`
+}
+
+// readProtocArgs returns, per plugin id, the recorded compiler invocations (protoc built-in plugins only).
+func readProtocArgs(rec string) (map[string][]protocArgs, error) {
+	out := map[string][]protocArgs{}
+	ents, err := os.ReadDir(rec)
+	if err != nil {
+		return nil, err
+	}
+	for _, e := range ents {
+		if !strings.HasSuffix(e.Name(), ".protocargs") {
+			continue
+		}
+		id, _, _ := strings.Cut(e.Name(), ".")
+		b, err := os.ReadFile(filepath.Join(rec, e.Name()))
+		if err != nil {
+			return nil, err
+		}
+		var pa protocArgs
+		if err := json.Unmarshal(b, &pa); err != nil {
+			return nil, err
+		}
+		out[id] = append(out[id], pa)
 	}
 	return out, nil
 }
@@ -408,11 +484,12 @@ func runCLIRequests(r *evid.Run, scratch, bin string, layoutList [][]string) {
 			nvariants++
 		}
 	}
-	r.Set("C_request_space", map[string]any{"dags_n3": len(dags), "layouts": len(layoutList), "runs_per_workspace": 15,
+	r.Set("C_request_space", map[string]any{"dags_n3": len(dags), "layouts": len(layoutList), "runs_per_workspace": 20,
 		"workspaces": nplain, "unused_import_variants": nvariants, "unused_import_workspaces": len(items) - nplain, "runs_per_unused_import_workspace": 4})
 	total := &ReqStats{}
 	var runs, failedRuns, grouped int
 	runsByKind := map[string]int{}
+	protocByRoute := map[string]int{} // round 4: compiler invocations per way of finding the compiler
 	lock := make(chan struct{}, 1)
 	lock <- struct{}{}
 	r.ParallelFor(len(items), 0, func(ix int) {
@@ -455,6 +532,8 @@ func runCLIRequests(r *evid.Run, scratch, bin string, layoutList [][]string) {
 		localRuns, localFailed, localGrouped := 0, 0, 0
 		localRunsByKind := map[string]int{}
 		input, inputKind := ws, "" // what `buf generate` is pointed at
+		tmplV1 := ""               // round 4: "" = a v2 template; "plugin" / "name" = a v1 template naming its plugins with that key
+		localProtoc := map[string]int{}
 		// one executes one `buf generate` run: plugin k of the template is cfgs[k]; override are extra command-line
 		// flags (--include-imports / --include-wkt), which replace the per-plugin settings of every plugin.
 		one := func(run int, kind string, tmask int, cfgs []ReqConfig, shared bool, override ...string) {
@@ -495,9 +574,21 @@ func runCLIRequests(r *evid.Run, scratch, bin string, layoutList [][]string) {
 				if cfg.ExcludeType != "" {
 					tp.excludeTypes = []string{cfg.ExcludeType}
 				}
+				if cfg.Builtin != "" {
+					tp.builtin = cfg.Builtin
+					switch {
+					case cfg.Route == "path":
+						tp.protocPath = []string{bin}
+					case strings.HasPrefix(cfg.Route, "args="):
+						tp.protocPath = []string{bin, "--verif-version=" + strings.TrimPrefix(cfg.Route, "args=")}
+					} // "lookup": no protoc_path, the compiler is found on PATH
+				}
 				plugins = append(plugins, tp)
 			}
 			tmplText := renderTemplate(bin, plugins)
+			if tmplV1 != "" {
+				tmplText = renderTemplateV1(bin, plugins, tmplV1)
+			}
 			tmpl := filepath.Join(dir, fmt.Sprintf("buf.gen.%d.yaml", run))
 			_ = os.WriteFile(tmpl, []byte(tmplText), 0o644)
 			args := []string{"generate", input, "--template", tmpl, "-o", base}
@@ -519,9 +610,14 @@ func runCLIRequests(r *evid.Run, scratch, bin string, layoutList [][]string) {
 				r.Incomplete("harness: cannot read recorded requests: " + err.Error())
 				return
 			}
+			compilerRuns, err := readProtocArgs(rec)
+			if err != nil {
+				r.Incomplete("harness: cannot read recorded compiler invocations: " + err.Error())
+				return
+			}
 			mk := func() *CLIReqCase {
 				cc := &CLIReqCase{Half: "C", Corpus: c, Sources: sources, Targets: bufx.SortedKeys(m.Targets), Plugins: cfgs, RunKind: kind, Input: inputKind, SharedOut: shared,
-					Template: strings.ReplaceAll(tmplText, dir, "<dir>"), Args: args, ExitCode: res.ExitCode, Stderr: strings.ReplaceAll(res.Stderr, dir, "<dir>"),
+					Template: strings.ReplaceAll(strings.ReplaceAll(tmplText, dir, "<dir>"), bin, "<bin>"), Args: args, ExitCode: res.ExitCode, Stderr: strings.ReplaceAll(res.Stderr, dir, "<dir>"),
 					Requests: map[string][]ReqSummary{}, Disk: listFiles(base)}
 				for id, reqs := range recorded {
 					cc.Requests[id] = summarize(reqs)
@@ -549,6 +645,18 @@ func runCLIRequests(r *evid.Run, scratch, bin string, layoutList [][]string) {
 			for k, cfg := range eff {
 				id := fmt.Sprintf("P%d", k+1)
 				reqs := recorded[id]
+				// round 4: a protoc built-in plugin must have been served by the (fake) compiler, a plugin binary never;
+				// the compiler must have been asked for the configured built-in generator
+				if cfg.Builtin == "" && len(compilerRuns[id]) != 0 || cfg.Builtin != "" && len(compilerRuns[id]) != len(reqs) {
+					r.Incomplete(fmt.Sprintf("harness: plugin %s (%s) has %d recorded requests, %d of them compiler invocations", id, cfg, len(reqs), len(compilerRuns[id])))
+					continue
+				}
+				for _, inv := range compilerRuns[id] {
+					localProtoc[cfg.Route+map[bool]string{false: "", true: "@v1"}[tmplV1 != ""]]++
+					if inv.PluginName != cfg.Builtin {
+						r.Violate("C/requests/protoc-builtin/other-generator-invoked", fmt.Sprintf("plugin %s is protoc built-in %q, the compiler was asked for --%s_out (arguments %q)", id, cfg.Builtin, inv.PluginName, inv.Args), mk())
+					}
+				}
 				CheckRequests(m, cfg, reqs, st, func(sig, what string) { r.Violate("C/"+sig, id+": "+what, mk()) })
 				for _, q := range reqs {
 					if want := fmt.Sprintf("id=%s,rec=%s,script=%s", id, rec, script); q.GetParameter() != want {
@@ -595,6 +703,9 @@ func runCLIRequests(r *evid.Run, scratch, bin string, layoutList [][]string) {
 			grouped += localGrouped
 			for k, v := range localRunsByKind {
 				runsByKind[k] += v
+			}
+			for k, v := range localProtoc {
+				protocByRoute[k] += v
 			}
 			lock <- struct{}{}
 			_ = os.RemoveAll(dir)
@@ -692,11 +803,123 @@ func runCLIRequests(r *evid.Run, scratch, bin string, layoutList [][]string) {
 		one(run, "group-override", sub, group([]string{"all", "directory"}[(ix/6)%2], perm[(ix+4)%6]), ix%2 == 0, overrides[ix%6]...)
 		run++
 		one(run, "group-override", 7, group([]string{"directory", "all"}[(ix/6)%2], perm[(ix+5)%6]), ix%2 == 1, overrides[(ix+3)%6]...)
+		run++
+		// ---- round 4: the plugin KIND. A protoc built-in plugin (protoc_builtin: cpp, java, ...) is served by the
+		// compiler: buf's protoc proxy handler turns every request into one `protoc` invocation (descriptor set +
+		// files to generate + parameter). The fake compiler records what it is given; the same CheckRequests judges it,
+		// with the retention clause of a compiler (cfg.Builtin): the descriptor set is the full source view.
+		// Built-in and binary plugins are mixed in one template (they share the generator's grouping key), the
+		// built-in name x reported compiler version rotates over every supported pair, the way the compiler is
+		// found over {protoc_path string, protoc_path with extra arguments, PATH lookup} and v2 / v1 templates.
+		builtin := func(cfg ReqConfig, sel int, route string) ReqConfig {
+			switch route {
+			case "args":
+				p := builtinPairs[sel%len(builtinPairs)]
+				cfg.Builtin, cfg.Route = p[0], "args="+p[1]
+			default:
+				cfg.Builtin, cfg.Route = builtinDefault[sel%len(builtinDefault)], route
+			}
+			return cfg
+		}
+		{
+			k := ix % 3
+			a := ReqConfig{Strategy: "all", IncludeImports: flags[k][0], IncludeWKT: flags[k][1]}
+			d := ReqConfig{Strategy: "directory", IncludeImports: flags[(k+1)%3][0], IncludeWKT: flags[(k+1)%3][1]}
+			pair := []ReqConfig{builtin(a, ix, "path"), d}
+			if ix%2 == 1 {
+				pair = []ReqConfig{d, builtin(a, ix, "path")}
+			}
+			one(run, "builtin-pair", 7, pair, (ix/2)%2 == 0)
+			run++
+			a.IncludeImports, a.IncludeWKT = flags[(k+2)%3][0], flags[(k+2)%3][1]
+			pair = []ReqConfig{a, builtin(d, ix+it.gi, "args")}
+			if ix%2 == 0 {
+				pair = []ReqConfig{builtin(d, ix+it.gi, "args"), a}
+			}
+			one(run, "builtin-pair", sub, pair, (ix/2)%2 == 1)
+			run++
+			// a group of three (one grouping key, different settings) whose members are of both kinds
+			g3 := group([]string{"directory", "all"}[ix%2], perm[(ix+it.gi)%6])
+			switch (ix / 2) % 3 {
+			case 0:
+				g3[0], g3[2] = builtin(g3[0], ix+1, "lookup"), builtin(g3[2], ix+2, "path")
+			case 1:
+				g3[1] = builtin(g3[1], ix+1, "lookup")
+			case 2:
+				g3[0], g3[1] = builtin(g3[0], 2*ix, "args"), builtin(g3[1], ix+1, "lookup")
+			}
+			one(run, "builtin-group", []int{sub, 7}[(ix/6)%2], g3, ix%2 == 0)
+			run++
+			// a v1 template: no per-plugin settings, the command line asks for imports / well-known types
+			tmplV1 = []string{"plugin", "name"}[ix%2]
+			v1 := []ReqConfig{builtin(ReqConfig{Strategy: []string{"all", "directory"}[ix%2]}, ix+3, "path"), {Strategy: "directory"},
+				builtin(ReqConfig{Strategy: []string{"directory", "all"}[ix%2]}, ix+4, "lookup")}
+			one(run, "builtin-v1", []int{7, sub}[(ix/3)%2], v1, (ix/2)%2 == 0, [][]string{nil, {"--include-imports"}, {"--include-imports", "--include-wkt"}}[ix%3]...)
+			tmplV1 = ""
+			run++
+			// the same output path from a protoc built-in plugin and from a plugin binary: an error when both write
+			// into one out, two files when the outs differ (the built-in's files reach buf through the compiler's
+			// temporary out directory, not through a CodeGeneratorResponse)
+			{
+				shared := ix%2 == 0
+				base := filepath.Join(dir, fmt.Sprintf("out%d", run))
+				script := filepath.Join(dir, "dup.json")
+				_ = os.WriteFile(script, []byte(`{"entries":[{"name":"dup/same.txt","content":"same name from two plugins\n"}]}`), 0o644)
+				b := builtin(ReqConfig{Strategy: "all"}, ix+5, []string{"path", "lookup", "args"}[(ix/2)%3])
+				bp := tmplPlugin{out: "o1", opt: "id=P1,script=" + script, strategy: []string{"all", "directory"}[(ix/4)%2], builtin: b.Builtin}
+				switch {
+				case b.Route == "path":
+					bp.protocPath = []string{bin}
+				case strings.HasPrefix(b.Route, "args="):
+					bp.protocPath = []string{bin, "--verif-version=" + strings.TrimPrefix(b.Route, "args=")}
+				}
+				lp := tmplPlugin{out: "o2", opt: "id=P2,script=" + script, strategy: "all"}
+				if shared {
+					lp.out = "o1"
+				}
+				plugins := []tmplPlugin{bp, lp}
+				if (ix/2)%2 == 1 {
+					plugins = []tmplPlugin{lp, bp}
+				}
+				tmplText := renderTemplate(bin, plugins)
+				tmpl := filepath.Join(dir, "buf.gen.dup.yaml")
+				_ = os.WriteFile(tmpl, []byte(tmplText), 0o644)
+				// one target file, so that strategy directory is a single compiler invocation as well
+				args := []string{"generate", ws, "--template", tmpl, "-o", base, "--path", filepath.Join(ws, c.Path(ix%3))}
+				res := bufx.RunCLI(ctx, map[string]string{}, "", args...)
+				r.Eval(1)
+				localRuns++
+				mk := func() *CLIReqCase {
+					return &CLIReqCase{Half: "C", Corpus: c, Sources: sources, Targets: []string{c.Path(ix % 3)}, RunKind: "builtin-duplicate", SharedOut: shared,
+						Template: strings.ReplaceAll(strings.ReplaceAll(tmplText, dir, "<dir>"), bin, "<bin>"), Args: args, ExitCode: res.ExitCode,
+						Stderr: strings.ReplaceAll(res.Stderr, dir, "<dir>"), Disk: listFiles(base)}
+				}
+				got := strings.Join(listFiles(base), " ")
+				switch {
+				case res.ExitCode != 0 && pluginDidNotRun(res.Stderr):
+					r.Incomplete("harness: plugin did not run: " + strings.ReplaceAll(res.Stderr, dir, "<dir>"))
+				case shared && res.ExitCode == 0:
+					r.Violate("duplicate-output/undetected/same-base-out", "a protoc built-in plugin and a plugin binary produced the same output path and no error was reported", mk())
+				case shared:
+					localRunsByKind["builtin-duplicate-rejected"]++
+					r.Distinct(fmt.Sprintf("C|builtin-duplicate|shared|%s|%v", b, (ix/2)%2))
+				case res.ExitCode != 0:
+					r.Violate("C/requests/generate-failed", "buf generate failed on a valid module and template: "+strings.ReplaceAll(res.Stderr, dir, "<dir>"), mk())
+				case got != "o1/dup/same.txt o2/dup/same.txt":
+					r.Violate("C/output/files-differ-from-generated-set", fmt.Sprintf("files below the output base [%s], expected the one file of each plugin below its own out", got), mk())
+				default:
+					localRunsByKind["builtin-duplicate-separate-outs"]++
+					r.Distinct(fmt.Sprintf("C|builtin-duplicate|separate|%s|%v", b, (ix/2)%2))
+				}
+			}
+		}
 		finish()
 	})
 	r.Set("C_request_runs", map[string]int{"runs": runs, "failed_runs_with_type_filter": failedRuns})
 	r.Set("C_request_successful_runs_by_kind", runsByKind)
 	r.Set("C_request_plugins_grouped_with_an_earlier_plugin_of_different_settings", grouped)
+	r.Set("C_request_compiler_invocations_by_route", protocByRoute)
+	r.Set("C_request_protoc_builtin_name_x_version_pairs", len(builtinPairs))
 	r.Set("C_request_clause_counts", map[string]int{
 		"targets_generated_exactly_once":                               total.TargetsOnce,
 		"imports_generated_exactly_once":                               total.ImportsOnce,
@@ -711,9 +934,24 @@ func runCLIRequests(r *evid.Run, scratch, bin string, layoutList [][]string) {
 		"filtered_sets_dropping_a_target":                              total.FilterDropped,
 		"dependency_edges_checked_unused_import":                       total.UnusedEdges,
 		"unused_import_of_a_non_target_checked_in_a_multi_request_set": total.UnusedEdgesToNonTargetMulti,
+		"retention_compiler_given_generated_file_with_all_options":     total.RetCompilerGenerated,
+		"retention_compiler_given_import_with_all_options":             total.RetCompilerImport,
 	})
 	if !r.Expired() {
-		for name, n := range map[string]int{"imports generated once": total.ImportsOnce, "wkt generated once": total.WktOnce,
+		for name, n := range map[string]int{"imports generated once": total.ImportsOnce,
+			"compiler given a generated file with source-retention options":    total.RetCompilerGenerated,
+			"compiler given an import with source-retention options":           total.RetCompilerImport,
+			"runs with a protoc built-in plugin next to a binary plugin":       runsByKind["builtin-pair"],
+			"group runs with protoc built-in members":                          runsByKind["builtin-group"],
+			"v1 template runs with protoc built-in plugins":                    runsByKind["builtin-v1"],
+			"duplicate path of a protoc built-in and a binary plugin rejected": runsByKind["builtin-duplicate-rejected"],
+			"same name from a protoc built-in and a binary plugin in two outs": runsByKind["builtin-duplicate-separate-outs"],
+			"compiler found through protoc_path":                               protocByRoute["path"],
+			"compiler found on PATH":                                           protocByRoute["lookup"],
+			"compiler found on PATH (v1 template)":                             protocByRoute["lookup@v1"],
+			"compiler with extra arguments, version 3.12.4":                    protocByRoute["args=3.12.4"],
+			"compiler with extra arguments, version 3.20.1":                    protocByRoute["args=3.20.1"],
+			"compiler with extra arguments, version 27.1":                      protocByRoute["args=27.1"], "wkt generated once": total.WktOnce,
 			"unused import edges": total.UnusedEdges, "unused import of a non-target in a multi-request set": total.UnusedEdgesToNonTargetMulti,
 			"runs on a module with unused imports": runsByKind["unused-pair"] + runsByKind["unused-group-directory"],
 			"shared import across requests":        total.SharedImportAcrossRequests, "retention stripped": total.RetGenStripped,
@@ -727,11 +965,32 @@ func runCLIRequests(r *evid.Run, scratch, bin string, layoutList [][]string) {
 }
 
 // cliNames is the probe-name alphabet of the CLI response runs.
+// builtinPairs are the (protoc built-in plugin name, compiler version reported by `protoc --version`) pairs that buf
+// accepts (round 4): kotlin needs > 3.16, rust > 4.22, js < 3.21; 3.12-3.14 additionally get
+// --experimental_allow_proto3_optional. builtinDefault are the names usable with the default version 27.1.
+var builtinPairs, builtinDefault = func() ([][2]string, []string) {
+	always := []string{"cpp", "csharp", "java", "objc", "php", "python", "pyi", "ruby"}
+	var pairs [][2]string
+	for _, v := range []string{"3.12.4", "3.20.1", "27.1"} {
+		names := append([]string(nil), always...)
+		switch v {
+		case "3.20.1":
+			names = append(names, "kotlin", "js")
+		case "27.1":
+			names = append(names, "kotlin", "rust")
+		}
+		for _, n := range names {
+			pairs = append(pairs, [2]string{n, v})
+		}
+	}
+	return pairs, append(append([]string(nil), always...), "kotlin", "rust")
+}()
+
 func cliNames(maxComponents int) []string { return c13.Paths(maxComponents) }
 
 // pluginDidNotRun recognises failures of the harness's own plugin process (never buf's verdict on a response).
 func pluginDidNotRun(stderr string) bool {
-	for _, pat := range []string{"VERIF-PLUGIN-FAILURE", "could not find protoc plugin", "exec format error", "fork/exec", "resource temporarily unavailable", "text file busy", "too many open files", "cannot allocate memory"} {
+	for _, pat := range []string{"VERIF-PLUGIN-FAILURE", "could not find protoc plugin", "executable file not found", "exec format error", "fork/exec", "resource temporarily unavailable", "text file busy", "too many open files", "cannot allocate memory"} {
 		if strings.Contains(stderr, pat) {
 			return true
 		}
